@@ -281,7 +281,9 @@ def run(rep, tier):
     ok, why = bool(cw), "anchor: collect_where_variables is not called from validate_plan"
     for w in cw:
         encl = [h for h in heads if vp.dominates(h, w.block) and vp.can_reach([w.block], [h])]
-        clones = [o[1] for o in vp.slice_back_op(w.args[1], through=lambda ev: False) if o[0] == "call" and re.search(r"clone::Clone>?::clone$", o[1].name or "")]
+        # the per-clause set: a copy of the plan's handles, or a fresh set that only receives this clause's WHERE variables
+        clones = [o[1] for o in vp.slice_back_op(w.args[1], through=lambda ev: False) if o[0] == "call" and re.search(
+            r"clone::Clone>?::clone$|BTreeSet::<T>::new$|BTreeSet::<T, A>::new(_in)?$|Default>?::default$", o[1].name or "")]
         if not encl or not clones:
             ok, why = False, "the set given to collect_where_variables is not a per-clause copy of the plan's handles"
             continue
